@@ -138,6 +138,13 @@ def r1_shared_cycles(ctx):
                             t = f.expr_operand(s.args[0], s.b, 'T')
                             if any(x[0] == 'field' and x[2] in (fld, owner_fld) for x in walk(t)) or any(x[0] == 'call' and x[1].endswith('::next') for x in walk(t)):
                                 emptied = True
+                        # `slots.iter_mut().filter_map(Option::take)` consumed by a loop: every element is taken as the loop reaches it
+                        if nm in ('filter_map', 'for_each', 'map') and len(s.args) == 2:
+                            cb = peel(f.expr_operand(s.args[1], s.b, 'T'))
+                            src = f.expr_operand(s.args[0], s.b, 'T')
+                            if cb[0] == 'fnitem' and cb[1] in ('std::option::Option::take', 'std::mem::take') and \
+                                    any(x[0] == 'field' and x[2] in (fld, owner_fld) for x in walk(src)):
+                                emptied = True
                 ctx.check(ok and emptied, 'breaker:%s' % cont, '%s is emptied by %s, which is reachable from ModuleContext::drop' % (cont, short(what)),
                           f.where() if f else None, {'reachable_from_drop': what in reach, 'empties': emptied})
             else:
@@ -288,6 +295,19 @@ def r2_breakers(ctx):
             rng = [x for x in walk(t) if x[0] == 'agg' and 'ops::Range' in x[1]]
             if rng and rng[0][2][0] == ('int', 0) and rng[0][2][1] == ('int', 2):
                 ok = True
+        if not ok:
+            # adaptor form: `for con in slots.iter_mut().filter_map(Option::take) { .. }` — the loop drives the take over the whole array
+            for c in g.calls():
+                if (c.callee or '') == 'std::iter::Iterator::filter_map' and len(c.args) == 2:
+                    cb = peel(g.expr_operand(c.args[1], c.b, 'T'))
+                    src = g.expr_operand(c.args[0], c.b, 'T')
+                    ty = c.argtys[0] if c.argtys else ''
+                    whole = 'IterMut' in ty and any(x[0] == 'field' and x[2] == 'connections' for x in walk(src)) and not any(a in ty for a in ('Take<', 'Skip<', 'StepBy<', 'Filter<'))
+                    driven = [w for w in per_item_calls(P, g, 'des::net::gate::Gate::dissolve_paths') if w.exhaustive and w.it is not None and
+                              any(x[0] == 'call' and x[1] == 'std::iter::Iterator::filter_map' for x in walk(w.it))]
+                    if cb[0] == 'fnitem' and cb[1] == 'std::option::Option::take' and whole and driven:
+                        ok = True
+                        detail = ty
         ctx.check(ok, 'dissolve-takes-every-slot', 'dissolve_paths takes every connection slot of the gate (iterating the whole slot array), not a prefix', g.where(), detail)
         rec = g.calls_to('des::net::gate::Gate::dissolve_paths')
         ctx.check(len(rec) >= 1 and all(any(x[0] == 'field' and x[2] == 'endpoint' for x in walk(g.expr_operand(s.args[0], s.b, 'T'))) for s in rec), 'dissolve-recurses',
